@@ -7,7 +7,8 @@ rendered as f"..." and as #[f[...]f], read + compiled by Hy and evaluated on
 three sets of bindings, against CPython evaluating the Python rendering
 (mc/ref/lit_fstr.py) on the same bindings; plus every malformed variant one
 edit away (unknown / missing conversion, missing `}`, single `}`, a second
-form in a field, empty field, lone `{`), which must be Hy syntax errors.
+form in a field, empty field, lone `{`, unrecognised escape), which must be
+Hy syntax errors.
 """
 import itertools
 
@@ -41,7 +42,7 @@ BOUNDS = {
     "quick": dict(families=[["full", 0, 1], ["med", 2, 2], ["small", 3, 3]], mal_n=2, shards=64),
     "thorough": dict(families=[["full", 0, 2], ["med3", 3, 3]], mal_n=3, shards=512),
 }
-TIME_CAP = {"quick": 600, "thorough": 3000}
+TIME_CAP = {"quick": 600, "thorough": 3600}
 MODES = ["q", "b"]
 
 _pools = {}
@@ -255,6 +256,8 @@ def run_shard(shard, tier):
         for others in itertools.product(small, repeat=n - 1):
             parts = list(others[:pos]) + [x] + list(others[pos:])
             for mode in MODES:
+                if x[0] == "Xbadesc" and mode == "b":
+                    continue        # raw: backslash-q is ordinary text there
                 cls, dis, text = judge_malformed(parts, mode)
                 _account(acc, cls, dis, parts, True)
                 acc.count("edit:" + x[0])
